@@ -455,3 +455,7 @@ mod tests {
         assert_eq!(result, Some(all_null.clone()));
     }
 }
+
+#[cfg(kani)]
+#[path = "/verif/kani/arrow-buffer/buffer/null.rs"]
+mod verif_kani;
